@@ -18,8 +18,10 @@ class Undecided(Exception):
     pass
 
 
-def build_unit(name, unit):
-    """Return (path, info). Raises extract.ExtractError when an anchor is lost."""
+def build_unit(name, unit, pid=None):
+    """Return (path, info). Raises extract.ExtractError when an anchor is lost.
+    pid: only the items that serve property pid are extracted (item key 'serves': the properties whose obligations
+    depend on the function, closed under calls); an item without 'serves' serves every property that runs the unit."""
     os.makedirs(BUILD, exist_ok=True)
     log = {"dropped_text": [], "rewrites": [], "shim_fields_omitted": {}, "functions": []}
     srcs = {}
@@ -77,6 +79,10 @@ def build_unit(name, unit):
         parts.append(X.find_const_item(src_of(rel), cname) + "\n")
     groups = {}
     for it in unit["items"]:
+        if pid and it.get("serves") and pid not in it["serves"]:
+            log.setdefault("items_not_extracted_for_this_property", []).append(
+                (it["impl"] + "::" if it.get("impl") else "") + ((it.get("block") or {}).get("name") or it["fn"]))
+            continue
         rel = it.get("src", main_src)
         s = src_of(rel)
         if it.get("impl"):
@@ -100,6 +106,8 @@ def build_unit(name, unit):
             if recipe.get("spec"):
                 recipe["spec"] = recipe["spec"].replace("@" + k + "@", v)
         text = X.render_fn(fn, recipe, log)
+        _key = (it["impl"] + "::" if it.get("impl") else "") + (it["block"]["name"] if it.get("block") else it["fn"])
+        text = f"// @item {_key}\n" + text + "\n// @enditem\n"
         groups.setdefault(it.get("impl"), []).append(text)
         qn = (it["impl"] + "::" if it.get("impl") else "") + it["fn"] + (" [block -> fn " + it["block"]["name"] + "]" if it.get("block") else "")
         log["functions"].append({"name": qn, "file": rel,
@@ -114,7 +122,7 @@ def build_unit(name, unit):
         parts.append(o)
     parts.append(CANARY)
     parts.append("\n} // verus!\nfn main() {}\n")
-    path = os.path.join(BUILD, f"{name}.rs")
+    path = os.path.join(BUILD, f"{name}_{pid}.rs" if pid else f"{name}.rs")
     with open(path, "w") as f:
         f.write("".join(parts))
     return path, log
@@ -135,13 +143,43 @@ def tags_by_line(path):
     return tags
 
 
-def run_unit(name, unit, timeout=300):
+def _fn_keys_by_line(src_lines):
+    """line number -> key ('Impl::fn' / 'fn' / block fn name) of the extracted item the line belongs to, from the
+    `// @item` / `// @enditem` markers written by build_unit; None for lines of the spec file (lemmas, shims)."""
+    keys, cur = {}, None
+    for n, line in enumerate(src_lines, 1):
+        m = re.match(r"// @item (\S+)", line)
+        if m:
+            cur = m.group(1)
+        elif line.startswith("// @enditem"):
+            cur = None
+        keys[n] = cur
+    return keys
+
+
+def excluded_fns(unit, pid):
+    """Functions of a shared unit that do not serve property `pid` (item key 'serves': [ids]); default: a function
+    serves every property that runs the unit."""
+    out = set()
+    if not pid:
+        return out
+    for it in unit.get("items", []):
+        sv = it.get("serves")
+        if sv and pid not in sv:
+            nm = it["block"]["name"] if it.get("block") else it["fn"]
+            out.add((it["impl"] + "::" if it.get("impl") else "") + nm)
+    return out
+
+
+def run_unit(name, unit, timeout=300, pid=None):
     """Returns dict(status, obligations=[{name,status,engine}], info...).
-    status in {'ok','failed','undecided'}."""
+    status in {'ok','failed','undecided'}.
+    pid: the property being decided; in a unit shared by several properties, obligations of functions whose item
+    says `serves` and does not list pid are neither counted nor reported for pid (they belong to the other property's check)."""
     t0 = time.time()
     res = {"unit": name, "engine": "verus/z3", "obligations": [], "status": "ok", "notes": []}
     try:
-        path, log = build_unit(name, unit)
+        path, log = build_unit(name, unit, pid)
     except X.ExtractError as e:
         res["status"] = "undecided"
         res["notes"].append(f"extraction failed (anchor lost or shape changed): {e}")
@@ -204,7 +242,18 @@ def run_unit(name, unit, timeout=300):
                 inside = False
     # Map error lines -> tags.
     tags = tags_by_line(path)
-    all_tags = sorted(set(tags.values()))
+    fnkey = _fn_keys_by_line(src_lines)
+    excl = excluded_fns(unit, pid)
+    if pid and unit.get("spec_serves") and pid not in unit["spec_serves"]:
+        excl.add(None)      # lemmas / shims of the spec file serve other properties only
+    item_keys = set(k for k in fnkey.values() if k)
+    foreign, own_err_fns = [], set()
+    # functions whose tagged clauses are reported only by the property named in the tag (item key 'tags_by_owner')
+    by_owner = set((it["impl"] + "::" if it.get("impl") else "") + (it["block"]["name"] if it.get("block") else it["fn"])
+                   for it in unit.get("items", []) if it.get("tags_by_owner")) if pid else set()
+    def _foreign_tag(l):
+        return l in tags and fnkey.get(l) in by_owner and not tags[l].startswith(pid + "/")
+    all_tags = sorted(set(t for l, t in tags.items() if fnkey.get(l) not in excl and not _foreign_tag(l)))
     failed_tags, untagged = set(), []
     err_blocks = re.split(r"\n(?=error)", p.stderr)
     for blk in err_blocks:
@@ -217,6 +266,11 @@ def run_unit(name, unit, timeout=300):
         if blk.startswith("error: aborting"):
             continue
         lines = primary_span_lines(blk)
+        if lines and (all(fnkey.get(l) in excl for l in lines) or
+                      (any(l in tags for l in lines) and all(_foreign_tag(l) for l in lines if l in tags))):
+            foreign.append({"fn": fnkey.get(lines[0]), "tags": [tags[l] for l in lines if l in tags], "text": blk.strip()[:300]})
+            continue
+        own_err_fns.update(fnkey.get(l) for l in lines)
         hit = [tags[l] for l in lines if l in tags]
         if hit:
             failed_tags.update(hit)
@@ -228,7 +282,10 @@ def run_unit(name, unit, timeout=300):
                                    "status": "failed" if t in failed_tags else "discharged"})
     # lemmas / functions without tags count as one obligation each
     for fname, f in fstat.items():
-        if fname.startswith("verif_canary"):
+        if fname.startswith("verif_canary") or fname in excl or (None in excl and fname not in item_keys):
+            continue
+        if not f.get("success") and fname not in own_err_fns and any(x["fn"] == fname for x in foreign):
+            # every failed clause of this function belongs to another property (tags_by_owner): not an obligation of pid
             continue
         res["obligations"].append({"name": f"{unit['property']}/verus/{name}/fn:{fname}", "engine": "verus/z3",
                                    "class": "complete(unbounded)",
@@ -250,6 +307,10 @@ def run_unit(name, unit, timeout=300):
     for o in res["obligations"]:
         if o["status"] == "fn-failed":
             o["status"] = "failed" if res["status"] == "failed" else "undecided"
+    if foreign:
+        res["not_this_property"] = foreign
+        res["notes"].append("obligations of functions that serve another property failed in this shared unit (reported by that property's check): "
+                            + ", ".join(sorted(set(t for f in foreign for t in (f["tags"] or [f["fn"] or "?"])))))
     res["trusted"] = list(unit.get("trusted", [])) + scan_assumptions(path, name)
     return res
 
